@@ -38,7 +38,14 @@ IP_POOL = [("203.0.113.7", ["203.0.113.7"]), ("10.0.0.1", ["10.0.0.1"]),
            ("2001:db8::1", ["2001:db8::1", "2001:DB8::1", "2001:0db8:0000:0000:0000:0000:0000:0001", "2001:db8:0:0:0:0:0:1"]),
            ("::1", ["::1", "0:0:0:0:0:0:0:1", "0000:0000:0000:0000:0000:0000:0000:0001"]),
            ("fe80::1:2", ["fe80::1:2", "FE80::1:2", "fe80:0:0:0:0:0:1:2"]),
-           ("2001:db8:1:2:3:4:5:6", ["2001:db8:1:2:3:4:5:6", "2001:0DB8:0001:0002:0003:0004:0005:0006"])]
+           ("2001:db8:1:2:3:4:5:6", ["2001:db8:1:2:3:4:5:6", "2001:0DB8:0001:0002:0003:0004:0005:0006"]),
+           # special-purpose ranges: an IPv4 address embedded in an IPv6 one is still that IPv6 address (16 bytes in the CSR)
+           ("::ffff:192.0.2.1", ["::ffff:192.0.2.1", "::FFFF:c000:201", "0:0:0:0:0:ffff:192.0.2.1"]),
+           ("::ffff:10.0.0.1", ["::ffff:10.0.0.1", "::ffff:a00:1"]),
+           ("::c000:201", ["::192.0.2.1", "::c000:201"]),
+           ("64:ff9b::c000:201", ["64:ff9b::192.0.2.1", "64:FF9B::C000:201"]),
+           ("2002:c000:201::", ["2002:c000:201::", "2002:c000:201:0:0:0:0:0"]),
+           ("192.0.2.1", ["192.0.2.1"])]
 
 
 def ident_set(rng, n):
@@ -78,6 +85,12 @@ def specs_for(tier, seed):
     for i in range(n_sets):
         n = 1 + (i % 8)
         add(simple_cert("set%d" % i, ids=ident_set(rng, n), key_type="ecdsa_p256"), meta={"family": "identifier set", "n": n})
+    # every IP of the table in one certificate, once per written variant (IPv4 next to the IPv6 addresses that embed it)
+    for k in range(4 if tier == "thorough" else 2):
+        v = k if tier == "thorough" else (k * 2 + seed) % 4
+        ids = [{"dns": "ips.example.org", "canon": "ips.example.org", "challenge": "http-01"}]
+        ids += [{"ip": vs[v % len(vs)], "canon": canon, "challenge": "http-01" if (i + v) % 2 else "tls-alpn-01"} for i, (canon, vs) in enumerate(IP_POOL)]
+        add(simple_cert("ipforms%d" % k, ids=ids, key_type="ecdsa_p256"), meta={"family": "every IP form", "variant": v})
     for kt in KEY_TYPES:
         for dg in (DIGESTS if tier == "thorough" or kt in ("ecdsa_p256", "rsa2048") else [DIGESTS[KEY_TYPES.index(kt) % 3]]):
             add(simple_cert("k-%s-%s" % (kt.replace("_", ""), dg), ids=ident_set(rng, 2), key_type=kt, csr_digest=dg),
@@ -89,7 +102,7 @@ def specs_for(tier, seed):
         sub = {a: ATTRS[a] for a in ATTRS if rng.random() < 0.4}
         add(simple_cert("attr-r%d" % i, ids=ident_set(rng, 2), subject_attributes=sub), meta={"family": "attribute subset", "attrs": sorted(sub)})
     for reuse in (False, True):
-        for pre in ("none", "pair", "badkey"):
+        for pre in ("none", "pair", "badkey", "othertype"):
             for kt in (KEY_TYPES if tier == "thorough" else ["ecdsa_p256", "rsa2048", "ed25519"]):
                 add(simple_cert("r-%s-%s-%s" % (reuse, pre, kt.replace("_", "")), ids=ident_set(rng, 2), key_type=kt, kp_reuse=reuse), pre=pre,
                     meta={"family": "kp_reuse x key file", "kp_reuse": reuse, "key_type": kt}, attempts=2)
@@ -123,8 +136,9 @@ def run(ctx):
            "model_fidelity": {"all_labels_clean": not fb, "bad": [({k: v for k, v in results[i]["meta"].items() if k not in ("flow", "hook_types")}, l) for i, l, _ in fb[:5]]},
            "exhaustive": False,
            "rule": "identifier sets of 1..8 entries drawn from canonical forms (A-labels from python's punycode codec, wildcards, IPv4, IPv6) and written "
-                   "in accepted variants (case, U-labels, expanded/upper-case IPv6); 7 key types x digests; each subject attribute alone, all 15, random "
-                   "subsets; kp_reuse x {no key, usable key, unusable key}"}
+                   "in accepted variants (case, U-labels, expanded/upper-case IPv6); every IP of the table (IPv4, IPv4-mapped/-compatible, NAT64, 6to4, "
+                   "loopback, link-local) together in one certificate per variant; 7 key types x digests; each subject attribute alone, all 15, random "
+                   "subsets; kp_reuse x {no key, usable key, unusable key, usable key of another type than configured}"}
     return {"coverage": cov, "assumptions": [
         "punycode correctness is only exercised for the labels of the table (encode fidelity beyond it is not what a state machine decides)",
         "the CA-side CSR parse (OpenSSL via vcrypto) is the oracle for SAN, subject, digest and self-signature"]}
